@@ -490,6 +490,72 @@ class GeneratedProxyMethod(ProxyMethod):
         return gen, sha, seg
 
 
+class CreateMethod(Unit):
+    """ServerProcess.register.<locals>.temp -- the generated `manager.<Typeid>(*args, **kwds)`: exactly one `create` request for THIS typeid with the caller's
+    arguments, on a connection of its own that is closed on every path; what the server answers (the proxy: Server.create / serve_client units) is returned."""
+    prop = 'C14'
+    file = F
+    qual = 'ServerProcess.register.<locals>.temp'
+    assert_mode = 'assume'
+    canaries = (('creation request for another typeid', "dispatch(conn, None, 'create', (typeid,) + args, kwds)", "dispatch(conn, None, 'create', ('list',) + args, kwds)", ''),
+                ('connection left open', '                    conn.close()', '                    pass', ''),
+                ('keyword arguments dropped', "dispatch(conn, None, 'create', (typeid,) + args, kwds)", "dispatch(conn, None, 'create', (typeid,) + args, {})", ''))
+
+    def setup(self, ex):
+        st = St()
+        st.ghost['ev'] = ()
+        self.typeid = z3.Const('typeid', Val)
+        self.args, self.kw = StarPack(z3.Const('args', Val)), KwPack(z3.Const('kwds', Val))
+        self.addr, self.authkey = z3.Const('address', Val), z3.Const('authkey', Val)
+        self.answer = z3.Const('server_answer', Val)
+        self.conn = Rec(ex, 'conn', immutable=True, methods={'close': Fn(lambda e, s, a, k, n: (log(s := s.fork(), 'close'), [('ok', s, NONE)])[1])})
+
+        def log(s, *x):
+            s.ghost['ev'] = s.ghost['ev'] + (x,)
+
+        def client(e, s, a, k, n):
+            s = s.fork()
+            log(s, 'connect', box(e, a[0]), box(e, k.get('authkey', NONE)))
+            return [('ok', s, self.conn)]
+        started = z3.Const('State.STARTED', Val)
+        me = Rec(ex, 'self', immutable=True, methods={'_Client': Fn(client)}).init(st, _address=self.addr, _authkey=self.authkey, _state=Rec(ex, 'state', immutable=True).init(st, value=started))
+        ex.globals['State'] = Rec(ex, 'State', immutable=True).init(st, STARTED=started)
+        self.cat = z3.Function('tuple_concat', Val, Val, Val)
+
+        def dispatch(e, s, a, k, n):
+            s = s.fork()
+            log(s, 'dispatch', a)
+            exc = fresh('create_exc')
+            s2 = s.fork().assume(V.isinst(exc, 'Exception'), *V.cls_facts(exc))
+            return [('ok', s, self.answer), ('raise', s2, exc)]
+        ex.globals['dispatch'] = Fn(dispatch)
+        st.cells['typeid'] = self.typeid
+        st.env.update(self=me, args=self.args, kwds=self.kw)
+        return st
+
+    def on_binop(self, ex, st, op, l, r, node):
+        # (typeid,) + args  with args an opaque pack
+        if isinstance(op, ast.Add) and isinstance(r, StarPack):
+            return [('ok', st, self.cat(box(ex, l), r.val))]
+        return None
+
+    def post(self, ex, outs):
+        from pyvc.vals import PyTuple
+        for k, s, p in outs:
+            evs = s.ghost['ev']
+            kinds = [e_[0] for e_ in evs]
+            ex.oblige(s, 'exit: one connection to this manager\'s own address with its authkey, one request on it, and the connection is closed afterwards -- on every path',
+                      z3.And(z3.BoolVal(kinds == ['connect', 'dispatch', 'close']), evs[0][1] == self.addr, evs[0][2] == self.authkey) if kinds[:1] == ['connect'] else z3.BoolVal(False))
+            d = [e_ for e_ in evs if e_[0] == 'dispatch']
+            if len(d) == 1:
+                a = d[0][1]
+                ok = len(a) == 5 and unbox_handle(ex, a[0]) is self.conn and unbox_handle(ex, a[4]) is self.kw
+                ex.oblige(s, 'exit: the request is create(<this typeid>, *args, **kwds) with the caller\'s arguments',
+                          z3.And(box(ex, a[1]) == NONE, box(ex, a[2]) == box(ex, z3.StringVal('create')), box(ex, a[3]) == self.cat(V.tup(V.seq_of([self.typeid])), self.args.val)) if ok else z3.BoolVal(False))
+            if k in ('normal', 'return'):
+                ex.oblige(s, 'exit: returns what the server answered', box(ex, p) == self.answer)
+
+
 class MakeProxyType(Unit):
     """AutoProxy.<locals>.make_proxy_type(name, exposed): the proxy class for an object has exactly that object's exposed methods.  The class cache
     must therefore be keyed by (name, exposed) -- two objects registered under one typeid may have different method sets."""
@@ -761,7 +827,7 @@ class C14Lemma(LemmaUnit):
 
 
 from contracts.c13 import ServerCreate, ServerCreateBadArgs, ServerCreateTyped, ServerCreateCallable, Managed, ManagedOutside, ProxyDecref, ProxyDecrefInServer      # noqa: E402  managed() values are live proxies to the hosted value itself
-UNITS = [ServerCallMethod, ServerCallMethodTyped, ServeClient, ProxyCallMethod, ProxyCallMethodInServer, GeneratedProxyMethod, MakeProxyType, AutoProxyUnit, DecoratorNames,
+UNITS = [ServerCallMethod, ServerCallMethodTyped, ServeClient, ProxyCallMethod, ProxyCallMethodInServer, GeneratedProxyMethod, CreateMethod, MakeProxyType, AutoProxyUnit, DecoratorNames,
          NamespaceAttr, NamespaceSetAttr, NamespaceDelAttr] + PROXY_METHODS + [ServerCreate, ServerCreateBadArgs, ServerCreateTyped, ServerCreateCallable, Managed, ManagedOutside, ProxyDecref, ProxyDecrefInServer, C14Lemma]
 ALWAYS_RUN_SCENARIOS = True      # both batteries together take about 3 s; they are the bounded stand-in for operation sequences
 SCENARIOS = [('BaseProxy._callmethod', 'replay/scenarios/c14_in_server_error.py'), ('', 'replay/scenarios/c14_proxy_vs_direct.py')]
